@@ -16,4 +16,5 @@ void sut_await(int mt, void *ag, void *node);
 void sut_run(int mt, void *ag);
 void sut_node_construct(void *mem, void (*cb)(void *node));
 int sut_agent_deferred(int mt, void *ag);
+int sut_domain_age(int mt, void *dom, uint64_t periods);
 }
